@@ -10,6 +10,7 @@ import (
 	"encoding/json"
 	"fmt"
 	"math"
+	"os"
 	"reflect"
 	"regexp"
 	"sort"
@@ -743,6 +744,9 @@ func checkClone(c CloneCase) *pk.Failure {
 	reach(reflect.ValueOf(orig), "", ro)
 	reach(reflect.ValueOf(clone), "", rc)
 	for p, w := range rc {
+		if os.Getenv("C13_NOPTR") == "1" { // development knob: judge by mutation histories alone
+			break
+		}
 		if wo, shared := ro[p]; shared {
 			return pk.Failf("clone", "clone-shares:ptr:"+shortWhere(w), "the clone and the original both reach the same address %#x (clone at %q, original at %q)\n%s", p, w, wo, ctx)
 		}
@@ -1368,6 +1372,9 @@ func checkJSONProg(c JSONProgCase) *pk.Failure {
 		}
 		secs := sections(run.Writes)
 		cls, kind, msg := px.OutcomeClass(run.Outcome)
+		if msg == "" {
+			msg = run.Outcome.Message
+		}
 		if len(secs) < 3 {
 			return pk.Failf("json-prog", fmt.Sprintf("json-prog:%s:as-cast:%s/%s:%s:%s", be, cls, kind, msgClass(msg), jsonFeature(c.V.V)),
 				"[%s] `v.to_json().parse_json() as T` did not complete: %s/%s %q, output %q\n%s", be, cls, kind, run.Outcome.Message, strings.Join(run.Writes, ""), ctx)
